@@ -89,3 +89,45 @@ Definition fas2values_im_R := fas2values_im (T := R) Rtwc Rtws.
 (** max_fa_period of a record: default spectrum (p2_plus = 0) of the signal *)
 Definition max_fa_period_R (dt : R) (x : list R) : option R :=
   let N := pow2_len (Z.of_nat (length x)) 0 in max_fa_period (fas_re_R N dt x) (fas_im_R N dt x) (fa_freqs N dt).
+
+(** ** Fourier moments and the Boore (2003) bandwidth (eqsig/fns/frequency.py: calc_fourier_moment, get_bandwidth_boore_2003).
+    [asig.fa_spectrum] is the COMPLEX one-sided spectrum, so `fa_spectrum ** 2` is the complex square (not |F|^2) and the
+    moment is a complex number: a complex scalar is a pair (re, im), a complex array a pair of lists.
+      calc_fourier_moment(asig, n) = 2 * np.trapz((2 pi f) ** n * F ** 2, x=f)      (n a non-negative int: 0, 2, 4 in the caller;
+                                                                                    a non-integer n is outside the model)
+      get_bandwidth_boore_2003     = np.sqrt(m2 ** 2 / (m0 * m4))                    (complex arithmetic; the complex square root
+                                                                                    is a parameter [csqrt])
+    [None] stands for numpy's nan + nan j of a division by the complex zero (RuntimeWarning; e.g. the zero record).
+    [pi] is a parameter (the real PI in the theorems, the rational value of the float np.pi in the Q run). *)
+From EQ Require Import lib.NpHelpers.
+Local Open Scope num_scope.
+
+Section Moments.
+Context {T : Type} `{NumOps T}.
+(** complex product, square, real multiple, test for zero, quotient (textbook formulas on pairs) *)
+Definition cmulp (a b : T * T) : T * T := (fst a * fst b - snd a * snd b, fst a * snd b + snd a * fst b).
+Definition csq (a : T * T) : T * T := cmulp a a.
+Definition cscale (s : T) (a : T * T) : T * T := (s * fst a, s * snd a).
+Definition czero (a : T * T) : bool := (fst a =? n0) && (snd a =? n0).
+Definition cdivp (a b : T * T) : option (T * T) :=
+  if czero b then None
+  else Some ((fst a * fst b + snd a * snd b) / (fst b * fst b + snd b * snd b),
+             (snd a * fst b - fst a * snd b) / (fst b * fst b + snd b * snd b)).
+(** np.trapz(y, x=x): sum over the panels of (x[i+1] - x[i]) * (y[i+1] + y[i]) / 2 *)
+Definition trapz_x (y x : list T) : T :=
+  nsum (map2 (fun d s => d * s / nofZ 2) (diff x) (map2 nadd (tl y) y)).
+(** (2 pi f) ** n *)
+Definition moment_weight (pi : T) (n : nat) (fr : list T) : list T := map (fun f => npow (nofZ 2 * pi * f) n) fr.
+(** real and imaginary part of F ** 2 *)
+Definition spec_sq_re (re im : list T) : list T := map2 (fun a b => a * a - b * b) re im.
+Definition spec_sq_im (re im : list T) : list T := map2 (fun a b => a * b + b * a) re im.
+Definition fourier_moment (pi : T) (n : nat) (fr re im : list T) : T * T :=
+  cscale (nofZ 2) (trapz_x (map2 nmul (moment_weight pi n fr) (spec_sq_re re im)) fr,
+                   trapz_x (map2 nmul (moment_weight pi n fr) (spec_sq_im re im)) fr).
+(** m2 ** 2 / (m0 * m4) *)
+Definition boore_of_moments (m0 m2 m4 : T * T) : option (T * T) := cdivp (csq m2) (cmulp m0 m4).
+Definition boore_arg (pi : T) (fr re im : list T) : option (T * T) :=
+  boore_of_moments (fourier_moment pi 0 fr re im) (fourier_moment pi 2 fr re im) (fourier_moment pi 4 fr re im).
+Definition bandwidth_boore (csqrt : T * T -> T * T) (pi : T) (fr re im : list T) : option (T * T) :=
+  option_map csqrt (boore_arg pi fr re im).
+End Moments.
